@@ -24,7 +24,8 @@ LANDMARKS = {
     "without_isolated-unpair": ("BpSeq.without_isolated", "to_unpair.append(stem.strand3p.first - 1)"),
     "without_isolated-noop": ("BpSeq.without_isolated", "return self"),
 }
-OPS = ["str", "pairs", "paired", "paired5to3", "sequence", "dot_bracket", "fcfs", "all_dot_brackets", "elements", "without_pseudoknots", "without_isolated", "eq_fresh"]
+OPS = ["str", "pairs", "paired", "paired5to3", "sequence", "dot_bracket", "fcfs", "all_dot_brackets", "elements", "without_pseudoknots", "without_isolated", "eq_fresh",
+       "convert_none", "convert_cbc"]
 _cur = {}
 
 
@@ -69,6 +70,13 @@ def _apply(obj, op, fresh_text):
     if op == "without_isolated":
         d = obj.without_isolated()
         return str(d), d
+    if op == "convert_none":
+        # the documented "no solver" path of the explicit entry point
+        return obj.convert_to_dot_bracket(None).structure, None
+    if op == "convert_cbc":
+        import pulp
+
+        return obj.convert_to_dot_bracket(pulp.PULP_CBC_CMD(msg=False)).structure, None
     if op == "eq_fresh":
         return obj == common.BpSeq.from_string(fresh_text), None
     raise KeyError(op)
